@@ -7,7 +7,7 @@ def P(cat, **kw):
     return d
 
 C = dict(
-    prop="C04", driver="pipeline", level="model_checking", driver_parallel=10, driver_timeout=3000,
+    prop="C04", driver="pipeline", level="model_checking", driver_timeout=3000,
     model_checks=[
         dict(module="PipeDrop_MC", cfg="PipeDrop_MC_2_fixed.cfg", workers=8),
         dict(module="PipeDrop_MC", cfg="PipeDrop_MC_2p_fixed.cfg", workers=8),
@@ -32,6 +32,13 @@ C = dict(
     ],
     directed="plans/C04.jsonl",
     expand_plans=drop_variants,
+    # end to end: the directed plans d-e2e-* run the whole server (driver ckpt): a collection's drop message written downstream
+    # while its task is Running makes the server issue the drop request - also after ANOTHER task of the target failed or was
+    # paused (Ckpt_Trace PROP=C04, clause DropIssuedOK)
+    more_drivers=["ckpt"],
+    trace_of=lambda p: (("Ckpt_Trace", "Ckpt_Trace.cfg", {"PROP": "C04"}) if p.get("driver") == "ckpt"
+                        else ("Pipe_Trace", "Pipe_Trace.cfg", {"PROP": "C04"})),
+    driver_parallel={"pipeline": 10, "ckpt": 2},
     trace=("Pipe_Trace", "Pipe_Trace.cfg"),
     validate_env={"PROP": "C04"},
     death="violation",
